@@ -129,7 +129,7 @@ func (v *defaultValidator) dumpDefaultValue(out *codegen.Emitter) any {
 		if ok {
 			namedFields := ""
 			for _, k := range sortedKeys(dvm) {
-				namedFields += fmt.Sprintf("\n%s: %s,", upperFirst(k), litter.Sdump(dvm[k]))
+				namedFields += fmt.Sprintf("\n%s: %s,", defaultFieldName(nt, k), litter.Sdump(dvm[k]))
 			}
 
 			namedFields += "\n"
@@ -144,6 +144,22 @@ func (v *defaultValidator) dumpDefaultValue(out *codegen.Emitter) any {
 
 	// Fallback to sdump in case we couldn't dump it properly.
 	return litter.Sdump(v.defaultValue)
+}
+
+// defaultFieldName returns the name of the struct field that the key of an object default
+// belongs to: the field declared for that JSON name, not a respelling of the key.
+func defaultFieldName(nt *codegen.NamedType, key string) string {
+	if nt.Decl != nil {
+		if st, ok := nt.Decl.Type.(*codegen.StructType); ok {
+			for _, f := range st.Fields {
+				if f.JSONName == key {
+					return f.Name
+				}
+			}
+		}
+	}
+
+	return upperFirst(key)
 }
 
 func (v *defaultValidator) tryDumpDefaultSlice(maxLineLen int32) (string, error) {
